@@ -36,17 +36,19 @@ func c19Quiet(n int) []string {
 }
 
 type c19Gen struct {
-	r       *rand.Rand
-	isReq   []bool
-	parent  []int
-	used    []bool
-	cookie  int
-	ckID    int
-	roots   []int
-	depth   []int // clone depth of clients
-	hist    map[string]int
-	cloned  bool
-	heapish bool // only wrapper / clone / exec ops (heap lane)
+	r          *rand.Rand
+	isReq      []bool
+	parent     []int
+	used       []bool
+	cookie     int
+	ckID       int
+	ckVal      int
+	marshalled map[int]bool // requests that were given a value to marshal
+	roots      []int
+	depth      []int // clone depth of clients
+	hist       map[string]int
+	cloned     bool
+	heapish    bool // only wrapper / clone / exec ops (heap lane)
 }
 
 func (g *c19Gen) clients() []int {
@@ -235,6 +237,10 @@ func (g *c19Gen) setter(o int) c19Op {
 		if k == c19HAuth {
 			v += 2000
 		}
+		if k == c19HContentType && r.Intn(2) == 0 {
+			v = verifh.Pick(r, []int{c19VCtXML, c19VCtJSON}) // round 7: kinds that pick the marshaller
+			g.hist["content-type-kind"]++
+		}
 		variant := r.Intn(3)
 		if k != c19HAuth && k != c19HContentType && r.Intn(8) == 0 {
 			v = c19VEmpty // the EMPTY string is a value like any other (and suppresses User-Agent)
@@ -295,13 +301,21 @@ func (g *c19Gen) setter(o int) c19Op {
 		n := 1 + r.Intn(2)
 		var ids []int
 		for i := 0; i < n; i++ {
+			if g.ckID > 0 && r.Intn(3) == 0 {
+				// round 7: a cookie NAME used before (by any client or request of the program,
+				// so also across a Clone) with another value
+				g.ckVal++
+				ids = append(ids, 1000*(1+g.ckVal%7)+100+1+r.Intn(g.ckID))
+				g.hist["cookie-name-again"]++
+				continue
+			}
 			g.ckID++
 			ids = append(ids, 100+g.ckID)
 		}
 		return one(code, S("ck,%s", c19List(ids)), func(w *c19World, c *Client, q *Request) {
 			var cs []*http.Cookie
 			for _, id := range ids {
-				cs = append(cs, &http.Cookie{Name: c19CookieName(id), Value: "1"})
+				cs = append(cs, c19Cookie(id))
 			}
 			if isReq {
 				q.SetCookies(cs...)
@@ -588,6 +602,19 @@ func (g *c19Gen) setter(o int) c19Op {
 	case "bd":
 		b := 1 + r.Intn(3)
 		variant := r.Intn(3)
+		if g.marshalled == nil {
+			g.marshalled = map[int]bool{}
+		}
+		// round 7: a value to marshal (struct / pointer / slice); the marshaller is picked by the
+		// Content-Type of the request, else of the client. A literal body set AFTER SetBody(struct)
+		// does not replace it in the running code (r.marshalBody stays), so such a request keeps
+		// drawing values to marshal.
+		if g.marshalled[o] || r.Intn(3) == 0 {
+			g.marshalled[o] = true
+			b += c19MarshalFrom
+			g.hist["body-marshalled"]++
+			return one(code, S("bd,%d", b), func(w *c19World, c *Client, q *Request) { c19MarshalBody(q, b, variant) })
+		}
 		return one(code, S("bd,%d", b), func(w *c19World, c *Client, q *Request) {
 			s := fmt.Sprintf("QQbody%d", b)
 			switch variant {
@@ -687,6 +714,10 @@ func c19FixedPrograms() []string {
 		"N;S0:hs,1,5;S0:qs,1,1;S0:ps,1,1;R0;S1:hs,1,6;S1:qs,1,2;S1:ps,1,2;E1:0,0,l1.p1,0;R0;E2:0,0,l1.p1,0;P0",
 		// a client setter applies to every later request, also to one created before the setter
 		"N;R0;S0:hs,2,3;S0:ck,101;E1:0,0,_,0;R0;E2:1,0,_,0",
+		// round 7: a common cookie of the same name set again on either side of a Clone (both are sent, no side sees the other's)
+		"N;S0:ck,101.102;C0;C1;S0:ck,2101;R1;E3:0,0,_,0;R2;E4:0,0,_,0;S1:ck,3101;R0;E5:0,0,_,0;R2;E6:0,0,_,0;R1;E7:0,0,_,0;P0;P1;P2",
+		// round 7: the request's Content-Type picks the marshaller of SetBody(struct), not the client's (set before Clone)
+		"N;S0:hs,100,904;C0;R1;S2:hs,100,903;S2:bd,11;E2:1,0,_,0;R1;S3:bd,12;E3:1,0,_,0;S0:hs,100,903;R0;S4:hs,100,904;S4:bd,13;E4:1,0,_,0;R1;S5:bd,12;E5:1,0,_,0",
 		// clone behaves the same, then both sides change
 		"N;S0:hs,1,1;S0:qa,1,1;S0:fs,1,1;S0:bf,1;S0:af,2;C0;S0:hs,1,2;S1:hs,1,3;S1:qa,1,4;R0;E2:1,0,_,0;R1;E3:1,0,_,0;P0;P1",
 		// clone of clone, retry options
@@ -709,7 +740,7 @@ func c19FixedPrograms() []string {
 // TestVerif_C19_prog: real clients vs the value model.
 func TestVerif_C19_prog(t *testing.T) {
 	s := verifh.New(t, "C19", "prog",
-		"API programs of <= 40 ops over up to 5 clients (originals, clones, clones of clones) and their requests: every client setter group (headers canonical/non-canonical, cookies, path/query/form params, before/after middleware, client and transport round-trip wrappers, retry count/interval/conditions/hooks, dump options, 30 scalar settings incl. base URL, proxy, timeouts, HTTP/2 settings, jar factory, ClearCookies, H2C, TLS certs/roots), request-level counterparts, Clone, R(), executions against a recording origin (first request received, attempts, middleware/wrapper/retry log, dump routing), GetCookies and settings probes; each program ends with a fresh request and a probe on every client; 11 hand-written witness programs first; non-trivial = has a Clone and a later setter and execution")
+		"API programs of <= 40 ops over up to 5 clients (originals, clones, clones of clones) and their requests: every client setter group (headers canonical/non-canonical, cookies incl. a cookie NAME set again with another value on any client, path/query/form params, before/after middleware, client and transport round-trip wrappers, retry count/interval/conditions/hooks, dump options, 30 scalar settings incl. base URL, proxy, timeouts, HTTP/2 settings, jar factory, ClearCookies, H2C, TLS certs/roots), request-level counterparts, literal bodies and values to marshal (struct / pointer / slice; JSON / XML / other Content-Type at either level), Clone, R(), executions against a recording origin (first request received, attempts, middleware/wrapper/retry log, dump routing), GetCookies and settings probes; each program ends with a fresh request and a probe on every client; 13 hand-written witness programs first; non-trivial = has a Clone and a later setter and execution")
 	// Programs during which an in-package detector saw one of the known findings at work go to
 	// a lane of their own: the harness reports only the first 25 mismatches of a lane in detail,
 	// and the (expected, excused) mismatches of those programs must not crowd out a new one.
@@ -939,7 +970,7 @@ func c19ParseProgram(text string) ([]c19Op, error) {
 				f = func(w *c19World, c *Client, q *Request) {
 					var cs []*http.Cookie
 					for _, id := range c19ParseInts(a[1]) {
-						cs = append(cs, &http.Cookie{Name: c19CookieName(id), Value: "1"})
+						cs = append(cs, c19Cookie(id))
 					}
 					if isReq {
 						q.SetCookies(cs...)
@@ -1049,7 +1080,13 @@ func c19ParseProgram(text string) ([]c19Op, error) {
 					c.SetRootCertFromString(w.rootPEM[arg(1)])
 				}
 			case "bd":
-				f = func(w *c19World, c *Client, q *Request) { q.SetBodyString(fmt.Sprintf("QQbody%d", arg(1))) }
+				f = func(w *c19World, c *Client, q *Request) {
+					if arg(1) >= c19MarshalFrom {
+						c19MarshalBody(q, arg(1), arg(1))
+						return
+					}
+					q.SetBodyString(fmt.Sprintf("QQbody%d", arg(1)))
+				}
 			default:
 				return nil, fmt.Errorf("setter %q not supported in hand-written programs", a[0])
 			}
